@@ -5,11 +5,7 @@ package main
 func c03Specs(tier string) []*Spec {
 	var specs []*Spec
 	add := func(name string, cfg Cfg, keys, vals [][]byte, depth, maint int, a Alpha) {
-		wt := 1
-		if depth >= 6 {
-			wt = 8
-		}
-		specs = append(specs, &Spec{Weight: wt, ID: "C03", Name: name, Cfg: cfg, Keys: keys, Vals: vals, MaxDepth: depth, MaxMaint: maint,
+		specs = append(specs, &Spec{ID: "C03", Name: name, Cfg: cfg, Keys: keys, Vals: vals, MaxDepth: depth, MaxMaint: maint,
 			Alphabet: a.Ops, Oracles: []Oracle{oracleProofs(probesFor(keys), true)}})
 	}
 	k3 := bs("a", "ab", "b")
